@@ -267,7 +267,8 @@ def _check_label_dtype(case):
         m.load_data(X, lab, sensitive_features=sf)
         lam = pd.Series(np.linspace(0.1, 1.0, len(m.index)), index=m.index)
         out.append((m.gamma(lambda X_: h).to_numpy(dtype=float), np.asarray(m.signed_weights(lam), dtype=float)))
-    if not (np.allclose(out[0][0], out[1][0], atol=1e-12) and np.allclose(out[0][1], out[1][1], atol=1e-12)):
+    same_shape = out[0][0].shape == out[1][0].shape and out[0][1].shape == out[1][1].shape
+    if not same_shape or not (np.allclose(out[0][0], out[1][0], atol=1e-12) and np.allclose(out[0][1], out[1][1], atol=1e-12)):
         return (True, fp, (f"C06:{mom}:label-dtype", f"{mom} with labels {y.tolist()} stored as {np.dtype(dtype).name}: gamma {out[1][0].round(4).tolist()} / signed weights differ from the values "
                            f"with int labels {out[0][0].round(4).tolist()} (groups {sf.tolist()}, predictions {h.tolist()})",
                            {"moment": mom, "label_dtype": np.dtype(dtype).name, "y": y.tolist(), "sensitive_features": sf.tolist(), "h": h.tolist(),
